@@ -200,7 +200,7 @@ def family_c(tier, which):
     # one long adapter (> 64 k-mer bits -> multi-mask or fall-back finder)
     long_a = "ACGGTCAATGCCTAGGATCCGTTAACGGCTAGCATTGACCGTAGGCTTAACCGGATATCGCGTAATGCCA"
     for t in ("back", "front", "anywhere", "prefix", "suffix"):
-        out.append(dict(fam="Clong", type=t, adapter=long_a, cidx=-1, depth=1, rates=[0.05, 0.1], overlaps=[3],
+        out.append(dict(fam="Clong", type=t, adapter=long_a, cidx=-1, depth=1, rates=[0.0, 0.01, 0.05, 0.1], overlaps=[3],
                         wc=[(True, False)]))
     return out
 
@@ -233,6 +233,25 @@ def _get_reads(d):
                             for pre in ("", "GGA"):
                                 for suf in ("", "TTG"):
                                     reads.add(pre + e + suf)
+                # occurrences far from both read ends (the short overlap k-mers cannot see them), exact and with ONE SUBSTITUTION IN
+                # EACH OF c EQUAL CHUNKS for c = 1..8 (the pigeonhole bound of the k-mer heuristic), chunks taken over the whole core
+                # and over its first 64 bases
+                junk5 = "TGCATCCGATTGCAGGCTTAACGTACCGGTTAGCATGCAATCGGCTAAGTCCGATTGACCTAGGCATTAGCCGATACGGTTAACCGGATAA"
+                junk3 = "CCTTAGGCATTGCAAGCTTGGCCAATCGGATCCTAAGGCTTACGGATTCCGGAATGCCTTAAGGCCATTGGCAATTCCGGTTAAGCTAGC"
+                nxt = {"A": "C", "C": "G", "G": "T", "T": "A"}
+                for L in (40, 64, 65, len(a)):
+                    for core in (a[:L], a[len(a) - L:]):
+                        variants = {core}
+                        for span in (len(core), min(64, len(core))):
+                            for c in range(1, 9):
+                                t = list(core)
+                                for i in range(c):
+                                    pos = int((i + 0.5) * span / c)
+                                    t[pos] = nxt[t[pos]]
+                                variants.add("".join(t))
+                        for e in variants:
+                            for pre, suf in (("", junk3), (junk5, ""), (junk5, junk3), ("GGA", junk3[:30])):
+                                reads.add(pre + e + suf)
                 _CREADS[key] = refalign.ReadSet(sorted(reads, key=lambda x: (len(x), x)))
             else:
                 _CREADS[key] = refalign.ReadSet(family_c_reads(d["adapter"], d["depth"], small=d.get("small", False)))
